@@ -618,6 +618,15 @@ func calculateHashes(numLeaves uint64, delHashes []Hash, proof Proof) (hashAndPo
 			// the next proof hash to calculate the parent.
 			sibHash = proof.Proof[proofHashIdx]
 			proofHashIdx++
+
+			// A sibling that's given in the proof always exists in the
+			// accumulator so it can never be empty. Accepting an empty
+			// hash here would move the hash being proven up to its parent
+			// unchanged, proving it at a position it isn't at.
+			if sibHash == empty {
+				return hashAndPos{}, nil, fmt.Errorf("invalid proof. Proof hash %d is empty.",
+					proofHashIdx-1)
+			}
 		}
 
 		// Calculate the next hash.
